@@ -39,7 +39,9 @@ func runC02(c *Ctx) {
 	ruleR02_2(c)
 	ruleR02_1(c)
 	ruleR02_6(c)
+	ruleRoutableAPIDelegates(c, "R02.2", "Authorizer", "AuthenticatorsFor")
 	ruleAlternativeStorageFresh(c, "R02.6")
+	ruleFreshMatchedRoute(c, "R02.5", "the matched route — in which Authorize records the authenticator that accepted the request, and on which NeedsAuth answers — is allocated for one lookup: what one request presented never decides another request's authentication", "the route returned by Lookup outlives the request (its Authenticator field would carry one request's outcome to the next)")
 }
 
 func isInvokeOf(names ...string) func(ssa.Instruction) bool { return isCallInstrTo(names...) }
@@ -271,7 +273,9 @@ func ruleR02_4(c *Ctx) {
 		}
 		if bb, isConst := constBool(r0); isConst && !bb {
 			// "no alternative applied": must not swallow a recorded rejection
-			c.obI("R02.4", r, "not-applicable-only-without-rejection", gNoErr, "the OR composition reports 'not applicable' only when no rejection was recorded", "a recorded rejection can be dropped")
+			// (an exit taken before any alternative was consulted has no rejection to drop)
+			beforeAny := !pathExists(f, b, r, nil, nil)
+			c.obI("R02.4", r, "not-applicable-only-without-rejection", gNoErr || beforeAny, "the OR composition reports 'not applicable' only when no rejection was recorded", "a recorded rejection can be dropped")
 			continue
 		}
 		okApplies := false
@@ -424,6 +428,14 @@ func int64Const(p *Prog, pkg, name string) int64 {
 // authorizeContextChain checks request.WithContext(WithValue(WithValue(request.Context(), princKey, usr), scopesKey, AllScopes())).
 func authorizeContextChain(f *ssa.Function, reqRes ssa.Value, request, usr ssa.Value, princKey, scopesKey int64) (bool, string) {
 	wc := asCall(reqRes)
+	if os := originsOf(reqRes); len(os) == 1 && asCall(os[0].V) != nil && os[0].Env != nil {
+		// the context chain may be built by a helper (withSecurity(request, usr, scopes)): follow it with the
+		// helper's parameters bound to this call's arguments
+		wc = asCall(os[0].V)
+		saved := paramEnv
+		paramEnv = os[0].Env
+		defer func() { paramEnv = saved }()
+	}
 	if wc == nil || calleeName(&wc.Call) != "(*net/http.Request).WithContext" {
 		return false, "the returned request is not request.WithContext(...)"
 	}
